@@ -83,7 +83,7 @@ type FedPartition struct {
 	Keys     map[string]string   `json:"keys"` // "service/F1" -> all | id | org
 }
 
-var fedRetKinds = []string{"int64", "string", "pstring", "pobj", "pobj", "listpobj", "listpobj", "union", "listunion", "enumA"}
+var fedRetKinds = []string{"int64", "string", "pstring", "pobj", "pobj", "listpobj", "listpobj", "union", "listunion", "enumA", "void"}
 
 // GenFedSpec draws a spec over the federated object pool.
 func GenFedSpec(t *rapid.T) *Spec {
@@ -115,6 +115,17 @@ func GenFedSpec(t *rapid.T) *Spec {
 		q.Fields = append(q.Fields, gen(fmt.Sprintf("r%d", k), true))
 	}
 	s.Objects = append(s.Objects, q)
+	// mutation root fields (pure functions here: what matters is how the gateway plans and
+	// routes a mutation whose result needs fields of other services)
+	mu := ObjSpec{Type: "Mutation"}
+	for k := 0; k < rapid.IntRange(1, 2).Draw(t, "nmut"); k++ {
+		f := gen(fmt.Sprintf("m%d", k), true)
+		if k == 0 {
+			f.Ret, f.Target, f.NilMod = "pobj", rapid.SampledFrom(fedNames).Draw(t, "mtarget"), 0
+		}
+		mu.Fields = append(mu.Fields, f)
+	}
+	s.Objects = append(s.Objects, mu)
 	for _, o := range fedNames {
 		os := ObjSpec{Type: o}
 		for k := 0; k < rapid.IntRange(1, 5).Draw(t, "nfields"); k++ {
@@ -132,11 +143,17 @@ func GenPartition(t *rapid.T, s *Spec) *FedPartition {
 	for i := 0; i < n; i++ {
 		p.Services = append(p.Services, fmt.Sprintf("s%d", i+1))
 	}
+	// the gateway refuses a mutation whose root fields live on more than one service ("only
+	// support 1 mutation step to maintain ordering"): all mutation fields go to one service
+	mutSvc := rapid.IntRange(0, n-1).Draw(t, "mutsvc")
 	for _, o := range s.Objects {
 		for _, f := range o.Fields {
 			k := rapid.IntRange(0, n-1).Draw(t, "svc")
+			if o.Type == "Mutation" {
+				k = mutSvc
+			}
 			svcs := []string{p.Services[k]}
-			if rapid.IntRange(0, 4).Draw(t, "second") == 0 {
+			if o.Type != "Mutation" && rapid.IntRange(0, 4).Draw(t, "second") == 0 {
 				k2 := rapid.IntRange(0, n-1).Draw(t, "svc2")
 				if k2 != k {
 					svcs = append(svcs, p.Services[k2])
@@ -206,6 +223,8 @@ func BindFed(s *Spec, p *FedPartition, modes Modes) (svcs []*FedService, err err
 			var goType reflect.Type
 			if os.Type == "Query" {
 				obj = schema.Query()
+			} else if os.Type == "Mutation" {
+				obj = schema.Mutation()
 			} else {
 				goType = ObjTypes[os.Type]
 				obj = schema.Object(os.Type, reflect.New(goType).Elem().Interface(), schemabuilder.FetchObjectFromKeys(fetchFunc(os.Type, p.Keys[svc+"/"+os.Type])))
